@@ -103,7 +103,7 @@ def finish(rep, replay_key=None):
         'seed': int(os.environ.get('VERIF_SEED', '0') or 0),
         'level': 'other',
         'coverage': {
-            'explanation': rep.explanation,
+            'explanation': rep.explanation or ('rule instances of %s enumerated on the current tree; see instances_per_rule and samples' % pid),
             'evaluations': len(rep.obs),
             'distinct_nontrivial': len(nontriv),
             'rule': 'one evaluation = one rule instance (a construct of /repo matched by a rule template); distinct = distinct '
